@@ -101,8 +101,9 @@ class FaultHook(Hooks):
     """At every statement the explorer decides whether a fault is reported
     there (at most `budget` faults per request)."""
 
-    def __init__(self, kinds=FAULT_KINDS, budget=1, world=None):
+    def __init__(self, kinds=FAULT_KINDS, budget=1, world=None, only=None):
         self.kinds = kinds
+        self.only = only        # predicate(stmt): may a fault strike here?
         self.budget = budget
         self.injected = []      # (statement index, kind, table)
         self.statements = 0
@@ -162,6 +163,8 @@ class FaultHook(Hooks):
         self.statements += 1
         if len(self.injected) >= self.budget:
             return
+        if self.only is not None and not self.only(stmt):
+            return
         kinds = [k for k in self.kinds if k != 'duplicate' or (
             isinstance(stmt, sa.sql.dml.Insert) and
             stmt.table.name in self.DUP_TABLES)]
@@ -175,8 +178,8 @@ class FaultHook(Hooks):
         self._fault(session, kind, '%s #%d' % (what, i))
 
 
-def install_faults(world, kinds=FAULT_KINDS, budget=1):
-    h = FaultHook(kinds, budget, world)
+def install_faults(world, kinds=FAULT_KINDS, budget=1, only=None):
+    h = FaultHook(kinds, budget, world, only)
     if not world.concrete:
         world.db.hooks = h
 
@@ -370,3 +373,52 @@ def install_scheduler(world, contended=CONTENDED):
     rl.listen(Session, 'before_commit', before_commit)
     rl.listen(world.backend.engine, 'before_execute', before_execute)
     return s, rl.remove
+
+
+class Multi(Hooks):
+    """several hook objects behind the single SymDB hook slot"""
+
+    def __init__(self, *hs):
+        self.hs = hs
+
+    def on_begin(self, session):
+        for h in self.hs:
+            h.on_begin(session)
+
+    def on_execute(self, session, stmt):
+        for h in self.hs:
+            h.on_execute(session, stmt)
+
+    def on_commit(self, session):
+        for h in self.hs:
+            h.on_commit(session)
+
+    def on_end(self, session):
+        for h in self.hs:
+            if hasattr(h, 'on_end'):
+                h.on_end(session)
+
+
+def is_dml(stmt):
+    return isinstance(stmt, (sa.sql.dml.Insert, sa.sql.dml.Update,
+                             sa.sql.dml.Delete))
+
+
+def install_scheduler_and_faults(world, kinds, budget=1, only=is_dml):
+    """schedules and faults together (a fault at a chosen statement of a
+    chosen interleaving)"""
+    if not world.concrete:
+        s = Scheduler()
+        f = FaultHook(kinds, budget, world, only)
+        world.db.hooks = Multi(s, f)
+
+        def un():
+            world.db.hooks = None
+        return s, f, un
+    s, un1 = install_scheduler(world)
+    f, un2 = install_faults(world, kinds, budget, only)
+
+    def un():
+        un2()
+        un1()
+    return s, f, un
